@@ -183,6 +183,51 @@ func modelPgEncode(e *Exec, c *frame, fn *ssa.Function, a []Value) Value {
 	return fail(t.String())
 }
 
+// PlanEncode: returns pgx's own plan types for the value kinds the Encode model
+// covers on text-like OIDs (string, []byte, pgtype.Text); their Encode methods
+// are then executed from pgx's SSA, so a plan applied to a value of another Go
+// type fails exactly as it does in pgx (a type-assertion panic).
+func modelPgPlanEncode(e *Exec, c *frame, fn *ssa.Function, a []Value) Value {
+	recv := a[0].(*Value)
+	if recv == nil {
+		e.goPanic("invalid memory address or nil pointer dereference")
+	}
+	oid := a[1].(sym.Sc)
+	format := a[2].(sym.Sc)
+	val := a[3].(Iface)
+	if val.T == nil {
+		return Iface{}
+	}
+	e.noteWrite(recv) // memoised plans
+	textLike := sym.Or(sym.Eq(oid, sym.Const(32, oidText)), sym.Eq(oid, sym.Const(32, oidVarchar)))
+	if !e.Branch(textLike) {
+		e.unsupported("pgtype.Map.PlanEncode model covers text-like OIDs only")
+	}
+	plan := func(name string) Value {
+		t := e.M.namedType("github.com/jackc/pgx/v5/pgtype", name)
+		return Iface{T: t, V: zero(t)}
+	}
+	text := e.Branch(sym.Eq(format, sym.Const(16, 0)))
+	t := val.T
+	switch {
+	case isString(t):
+		if text {
+			return plan("encodePlanStringToAnyTextFormat")
+		}
+		return plan("encodePlanTextCodecString")
+	case isByteSlice(t):
+		return plan("encodePlanTextCodecByteSlice")
+	}
+	if n, ok := t.(*types.Named); ok && n.Obj().Pkg() != nil && n.Obj().Pkg().Path() == "github.com/jackc/pgx/v5/pgtype" && n.Obj().Name() == "Text" {
+		if text {
+			return plan("encodePlanTextValuerToAnyTextFormat")
+		}
+		return plan("encodePlanTextCodecTextValuer")
+	}
+	e.unsupported("pgtype.Map.PlanEncode model: value type " + t.String())
+	return nil
+}
+
 func isByteSlice(t types.Type) bool {
 	sl, ok := under(t).(*types.Slice)
 	if !ok {
